@@ -87,6 +87,23 @@ theorem decode_encode {ie : IE} {v : Value} {bs : Bytes} (rest : Bytes)
     rw [decodeField_fixed _ _ _ (by simp) (by simp [to16_length h])]; simp [decodeElem, canon, h]
 
 
+/-- RFC 7011 section 7 allows the three-octet length form (255, then the length as 16 bits) for ANY length, short values
+    included; only this library's own encoder never uses it below 255. The collector's field reader accepts it for every
+    length up to 65535 and delivers the same value as for the canonical form, consuming exactly prefix + payload. -/
+theorem long_length_form_accepted (ie : IE) (b rest : Bytes) (hl : ie.len = VariableLength) (hb : b.length ≤ 65535) :
+    decodeField ie ((255 : UInt8) :: (be 2 b.length ++ b ++ rest)) = (decodeElem ie b >>= fun v => .ok (v, rest)) := by
+  have h1 : (UInt8.ofNat (b.length / 256 % 256)).toNat = b.length / 256 := by
+    rw [u8_ofNat_toNat_lt _ (by omega)]; omega
+  have h2 : (UInt8.ofNat (b.length % 256)).toNat = b.length % 256 := u8_ofNat_toNat_lt _ (by omega)
+  have hsum : b.length / 256 * 256 + b.length % 256 = b.length := by omega
+  have h255 : (255 : UInt8).toNat = 255 := rfl
+  have hnot : ¬ (b.length + rest.length < b.length) := by omega
+  simp [decodeField, readFieldLength, hl, be_two, h1, h2, hsum, h255, hnot]
+
+/-- ... and so a short value decodes the same in either form (non-vacuity: "hi" as 02 68 69 and as ff 00 02 68 69) -/
+example : decodeField ⟨"sourcePodName", 101, .string, 56506, 65535⟩ [2, 104, 105, 7] =
+    decodeField ⟨"sourcePodName", 101, .string, 56506, 65535⟩ [255, 0, 2, 104, 105, 7] := by decide
+
 /-! ## Wire formats stated outright -/
 
 /-- booleans are 1 (true) / 2 (false), RFC 7011 section 6.1.5 -/
